@@ -72,6 +72,26 @@ class ExecMixin:
         if isinstance(cur, list) and opname == "Add":
             cur.extend(self.iterate(val))      # in-place, like list.__iadd__
             return cur
+        if isinstance(cur, list) and opname == "Mult" and isinstance(val, int):
+            cur[:] = cur * val
+            return cur
+        if isinstance(cur, set) and isinstance(val, (set, frozenset)):
+            # set.__ior__ / __iand__ / __isub__ / __ixor__ mutate in place
+            if opname == "BitOr":
+                cur |= val
+                return cur
+            if opname == "BitAnd":
+                cur &= val
+                return cur
+            if opname == "Sub":
+                cur -= val
+                return cur
+            if opname == "BitXor":
+                cur ^= val
+                return cur
+        if isinstance(cur, dict) and isinstance(val, dict) and opname == "BitOr":
+            cur.update(val)
+            return cur
         return self.binop(opname, cur, val)
 
     def s_Return(self, st, env):
